@@ -59,24 +59,34 @@ TEXT["C09"] = dict(
 )
 
 TEXT["C04"] = dict(
-    text="gomini.EqualO on pointer-shaped Go values is modelled as the verified micro unification algorithm applied to an injective term encoding of the "
-         "values (variables by registration, never by placeholder contents): theorems C04_mgu (solutions of the result = unifiers compatible with the "
-         "earlier bindings), C04_preserves, C04_resolve_equal, C04_fail, C04_total, C04_wf, C04_encoding_faithful (Coq kernel, no axioms). The tie is "
-         "differential execution through the exported gomini API (NewVar/Set/EqualO/CastVar/Get) under BOTH placeholder policies, with oracles for "
-         "verdict, unifier, most-general, earlier bindings, input state unchanged and independence of placeholder contents.",
-    note="trusted: Coq kernel + vm_compute; the harness's value encoding/decoding and reference unifier; the hand model is tied by sampling; "
-         "content independence holds of the model by construction (contents are not an input) and is checked on the code by the oracle",
-    technique="Coq proof (reduction to the verified unification model through an injective encoding) + differential correspondence",
+    text="Two layers, both Coq-kernel checked without axioms. (1) GCore.v transcribes gomini/unify.go branch by branch - walk, CastVar, hasCycle through reflecttools.Any, isLeaf + "
+         "reflect.DeepEqual, and the descent through reflecttools.ZipReduce with the state as accumulator - over the reflecttools value model of C18; theorem C04_code_is_unify: on "
+         "pointer-shaped values (nil pointers, pointers to scalars, pointers to structs, slices, registered variable pointers) that transcription computes exactly what micro's verified "
+         "unify computes on the term encoding of the values, for every fuel and every state; hence C04_code_ok (earlier bindings kept; the solutions of the result are exactly the unifiers "
+         "of the two values compatible with the old state: most general), C04_code_fail (failure only when no finite unifier exists), C04_code_equalo (0 or 1 state), C04_code_wf. "
+         "(2) The algebraic layer on an injective encoding (variables by registration, never by placeholder contents): C04_mgu, C04_preserves, C04_resolve_equal, C04_fail, C04_total, C04_wf, "
+         "C04_encoding_faithful. Tie: differential execution of the TRANSCRIPTION and of the encoding model against the real EqualO through the exported API (NewVar/Set/EqualO/CastVar/Get) "
+         "under BOTH placeholder policies and two memory layouts (fresh nodes / equal sub-values shared and list prefixes aliasing one backing array), with oracles for verdict, unifier, "
+         "most-general, earlier bindings, input state unchanged and independence of placeholder contents.",
+    note="trusted: Coq kernel + vm_compute; the harness's value encoding/decoding and reference unifier; the transcription is tied to the Go code by sampling (differential execution), "
+         "not by proof; content independence holds of the model by construction (placeholder contents are not an input) and is checked on the code by the oracle; termination of the "
+         "transcription is inherited only for definite results (out-of-fuel is a distinguished outcome), totality is proved for the encoding layer (C04_total)",
+    technique="Coq proof (refinement of the transcribed algorithm to the verified unification model; induction on fuel with a fold lemma for ZipReduce) + differential correspondence",
 )
 
 TEXT["C08"] = dict(
     text="Theorems (Coq kernel, no axioms) over the model of micro's reifyS/ReifyIntVarFromState/MKReify/Run: the reified answer is the fully resolved query "
          "(no bound variable remains) with the k-th distinct unbound variable, left to right, replaced by _k (same variable same name); no variable leaks; "
-         "alpha-equivalent answers reify identically; reification terminates on consistent states; Run = map of reify over take. gomini part: rewrite = walkstar "
-         "on encoded values (C08g_resolved) and direct oracles on gomini.Run answers (dynamic Go type of the query, resolvedness against the reference unifier, "
-         "caller terms unmodified). Tie: differential execution of reifyS/Reify/Run.",
-    note="trusted: Coq kernel + vm_compute; harness encoders and reference unifier; hand model tied by sampling; gomini Run is checked by oracles rather than a separate model",
-    technique="Coq proof (first-occurrence renaming characterisation of reifys) + differential correspondence + oracles",
+         "alpha-equivalent answers reify identically; reification terminates on consistent states; Run = map of reify over take. gomini part: GCore.v transcribes rewrite "
+         "(walk, CastVar, reflecttools.Map) over the reflecttools value model of C18 - struct fields, slice elements, Go map values, interface-typed slots; C08g_code_resolved: "
+         "nothing reachable in the answer through the containers Map descends into is a bound variable, unbound variables stay their own placeholders; C08g_code_kind: the answer has the "
+         "kind of the walked query (never a bare key); C08g_resolved for the term encoding. Tie: differential execution of reifyS/Reify/Run; for gomini.Run the transcription (gunify over "
+         "the goal's equations, then grewrite of the query) is evaluated in Coq on the same programs and compared with the real answers (values with leaves in struct fields, slices, maps and "
+         "nested records; variables bound directly, through chains, or not at all), plus direct oracles (dynamic Go type of the query, resolvedness, placeholder identity of unbound variables, "
+         "caller terms unmodified).",
+    note="trusted: Coq kernel + vm_compute; harness encoders and reference unifier; hand models and the transcription are tied by sampling; that Run does not write the caller's terms is a memory-level fact "
+         "checked by the harness (and by C18's Map freshness), not by the functional model",
+    technique="Coq proof (first-occurrence renaming characterisation of reifys; induction over the transcribed rewrite) + differential correspondence + oracles",
 )
 TEXT["C13"] = dict(
     text="The relation bodies of mini.AppendO/NullO/ConsO/CarO/MemberO/MapO and gomini concato.ConcatO/PrependO are re-translated from the Go source on every run "
